@@ -13,6 +13,7 @@ Gin through the requested API and returns a Built with:
   direct(args, kwargs) -> record calls the original directly (no Gin)
 A record is {'named': {param: value}, 'args': [...], 'kw': {...}, 'scope': 'a/b', 'n': call index}.
 """
+import functools
 import inspect
 import sys
 import types
@@ -157,11 +158,21 @@ def build(shape, gin, lists_on='target'):
     src = f'def {name}({signature_source(shape)}):\n  return {record_source(shape)}\n'
     exec(compile(src, f'<{modname}>', 'exec'), mod.__dict__)  # pylint: disable=exec-used
     original = mod.__dict__[name]
-    cfg = register(original)
+    target = original
+    for _ in range(shape.get('decorated') or 0):
+      # a non-Gin decorator written with functools.wraps: (*args, **kwargs) on the outside, the
+      # real signature reachable through __wrapped__
+      def deco(f):
+        @functools.wraps(f)
+        def inner(*args, **kwargs):
+          return f(*args, **kwargs)
+        return inner
+      target = deco(target)
+    cfg = register(target)
     if cfg is None:
-      cfg = gin.get_configurable(original)
+      cfg = gin.get_configurable(target)
     selector = (gin_module + '.' if gin_module else modname + '.') + name
-    return Built(shape, mod, original, cfg, original, selector, configurable_obj=cfg)
+    return Built(shape, mod, original, cfg, target, selector, configurable_obj=cfg)
 
   if kind in ('class_init', 'class_new'):
     if kind == 'class_init':
